@@ -357,7 +357,7 @@ def standard_flow(ctx, spec):
         proof_broken = True
 
     cases_p, impl_p, model_p = ctx.path("cases.txt"), ctx.path("impl.txt"), ctx.path("model.txt")
-    okg, errg = gen_cases(prop, ctx.seed, ctx.tier, ctx.path("gen.txt"))
+    okg, errg = gen_cases(prop, ctx.seed, ctx.tier, ctx.path("gen.txt"), extra=spec.get("gen_extra", ()))
     corpus = corpus_lines(pid)
     gen = read_lines(ctx.path("gen.txt")) if okg else []
     cases = corpus + gen
